@@ -301,6 +301,15 @@ def other_subscriptions(ck: Check) -> int:
         if i < 6:
             want["adv"].append(100 + i); want["raw"].append(1); want["free"].append((i, 9))
         n += 6
+    # the same stream for a subscriber that did not give the optional one-shot-request handler: every message, `once` or not,
+    # is one call of the subscription handler
+    client2, conn2, _tr2, _loop2 = live.make_client()
+    got["ha_only"], want["ha_only"] = [], []
+    client2.subscribe_home_assistant_states(lambda e, a: got["ha_only"].append((e, a)))
+    for i in range(9):
+        live.feed_message(conn2, pb.SubscribeHomeAssistantStateResponse(entity_id=f"e{i}", attribute="" if i % 2 else "a", once=i % 3 == 0))
+        want["ha_only"].append((f"e{i}", "" if i % 2 else "a"))
+        n += 1
     for k in got:
         if got[k] != want[k]:
             ck.violation(f"c17:subscription:{k}", f"subscription {k}: callbacks {got[k]} but the device sent {want[k]} "
